@@ -29,7 +29,7 @@ GUARD_PROP = {
     "CompiledOnceAfterSelection": "C07", "SideEffectsAfterCompileBeforeCursorAndEnd": "C07",
     "CursorOnceAfterEffectsBeforeEnd": "C07", "RunEndedOnceAfterSpawn": "C07", "RunEndedFollowsItsSessionEnded": "C07",
     "NothingOfARunAfterItsEnd": "C07", "JobSpawnedOnce": "C07", "JobEndedAtMostOnceAfterSpawn": "C07",
-    "TaskOpensWithSpawnOnly": "C17", "FrameAfterTerminal": "C17", "RunningAtMostOnce": "C17", "CancelRecordedFirst": "C17",
+    "TaskOpensWithSpawnOnly": "C17", "FrameAfterTerminal": "C17", "RunningAtMostOnce": "C17", "CancelRecordedFirst": "C17", "RangesConsecutive": "C17",
     "CacheNeverAheadOfTruth": "C05", "RecordedBeforePublished": "C06",
     "SnapshotHasEveryLoggedFrame": "C03", "CheckpointNamesItsCutMessage": "C09",
     "NoOverlap": "C11", "SideEffectsAfterTheToolFinished": "C11",
@@ -101,11 +101,14 @@ def frame_event(fr):
     if sk == "continuity" and short in ("ss", "se"):
         short = "other"
     m = fr.get("id") if t == "continuity_message_appended" else fr.get("message_id")
+    lg = ((fr.get("artifacts") or {}).get("log") or {}) if t == "tool_task_output_delta" and isinstance(fr.get("artifacts"), dict) else {}
     # a cursor frame written by an explicit rotate names no live run (C07-3 is about the ones that do)
     return {"ev": "f", "sk": sk, "s": str(fr.get("stream_id") or fr.get("session_id") or ""), "seq": int(fr.get("seq", -1)),
             "t": short, "r": str(fr.get("run_session_id") or ""), "m": str(m or ""), "j": str(fr.get("job_id") or ""),
             "st": str(fr.get("status") or "") if t == "tool_task_status" else "",
             "tid": str(fr.get("tool_id") or "") if t == "continuity_tool_side_effects" else "",
+            "os": str(fr.get("stream") or "") if t == "tool_task_output_delta" else "",
+            "off": int(lg["offset_bytes"]) if isinstance(lg.get("offset_bytes"), int) else -1, "nb": int(lg.get("bytes") or 0) if isinstance(lg.get("bytes"), int) else 0,
             "pt": str(fr.get("parent_thread_id") or fr.get("from_thread_id") or "") if short in ("branched", "handoff") else "",
             "ps": (int(fr.get("parent_seq") if fr.get("parent_seq") is not None else fr.get("from_seq") or 0) if short in ("branched", "handoff")
                    else int(fr.get("to_seq") or 0) if short == "ckpt" else 0),
